@@ -79,17 +79,7 @@ func ruleSUB1(p *Program) *RuleResult {
 		if err != nil {
 			return r.anchorFail(err)
 		}
-		var argCall *ssa.Call
-		for _, ec := range evaluateCalls(fn) {
-			if ec.recv == "args[0]" {
-				argCall = ec.call
-			}
-		}
 		needsArg := fnName == "Skip" || fnName == "Take"
-		if needsArg && argCall == nil {
-			r.undecided("impl."+fnName+"|shape", "args[0].Evaluate call not found", p.pos(fn.Pos()), "unsupported shape")
-			continue
-		}
 		maxSize := 4
 		if thoroughTier {
 			maxSize = 7
@@ -105,11 +95,13 @@ func ruleSUB1(p *Program) *RuleResult {
 				an := newAnalyzer()
 				an.maxBlocks = 250
 				nargs := 0
+				oe := newOperandEnv()
 				if needsArg {
 					nargs = 1
-					an.pin[argCall] = okTuple(coll(st.intItem(int64(n))))
+					oe.results["args[0]"] = okTuple(coll(st.intItem(int64(n))))
 				}
-				res := an.analyze(fn, []aval{nonnil("ctx"), symColl(size), sliceLen(nargs)})
+				an.callModel = oe.model()
+				res := an.analyze(fn, []aval{nonnil("ctx"), symColl(size), argsValue(nargs)})
 				var want string
 				clamp := func(k int) int {
 					if k < 0 {
@@ -154,17 +146,20 @@ func ruleSUB1(p *Program) *RuleResult {
 	if err != nil {
 		return r.anchorFail(err)
 	}
-	ecs := evaluateCalls(ie)
-	if len(ecs) != 1 {
-		r.undecided("IndexExpression|shape", "index Evaluate call not found", p.pos(ie.Pos()), "unsupported shape")
-	} else {
+	{
 		for size := 0; size <= 3; size++ {
 			for _, n := range []int{-1, 0, 1, 2, 3, 2147483647} {
 				r.count("cells", 1)
 				an := newAnalyzer()
 				an.maxBlocks = 250
-				an.pin[ecs[0].call] = okTuple(coll(st.intItem(int64(n))))
-				res := an.analyze(ie, []aval{nonnil("e"), nonnil("ctx"), symColl(size)})
+				oe := newOperandEnv()
+				oe.results["field:Index"] = okTuple(coll(st.intItem(int64(n))))
+				an.callModel = oe.model()
+				res := an.analyze(ie, []aval{nodeReceiver(ie, nil), nonnil("ctx"), symColl(size)})
+				if !oe.evaluated["field:Index"] {
+					r.undecided("IndexExpression|shape", "the index expression is not evaluated", p.pos(ie.Pos()), "unsupported shape")
+					break
+				}
 				want := ""
 				if n >= 0 && n < size {
 					want = abc[n : n+1]
